@@ -1,0 +1,42 @@
+//go:build verif
+
+package session
+
+import (
+	"github.com/lugu/qiloop/bus"
+	"github.com/lugu/qiloop/bus/services"
+)
+
+// Hooks for the verification harness (/verif). Compiled only with the
+// build tag "verif"; nothing here is used by the package itself and no
+// behaviour is added.
+
+// VerifClient calls the unexported Session.client: the lookup in the
+// connection pool which dials and inserts on a miss.
+func VerifClient(s bus.Session, info services.ServiceInfo) (bus.Client, error) {
+	return s.(*Session).client(info)
+}
+
+// VerifPool returns a copy of the pool (endpoint address -> shared
+// client). ok is false when the pool's lock could not be taken for
+// reading (which only happens once the lock is corrupted or held).
+func VerifPool(s bus.Session) (pool map[string]bus.Client, ok bool) {
+	sess := s.(*Session)
+	if !sess.pollMutex.TryRLock() {
+		return nil, false
+	}
+	defer sess.pollMutex.RUnlock()
+	pool = make(map[string]bus.Client, len(sess.poll))
+	for addr, c := range sess.poll {
+		pool[addr] = c
+	}
+	return pool, true
+}
+
+// VerifServices returns a copy of the session's current service list.
+func VerifServices(s bus.Session) []services.ServiceInfo {
+	sess := s.(*Session)
+	sess.serviceListMutex.Lock()
+	defer sess.serviceListMutex.Unlock()
+	return append([]services.ServiceInfo(nil), sess.serviceList...)
+}
